@@ -307,6 +307,11 @@ impl Kernel {
         *st.counters.entry(name).or_insert(0) += n;
     }
 
+    pub fn any_fault_or_crash_fired(&self) -> bool {
+        let st = self.lock();
+        !st.faults_fired.is_empty() || st.crash_fired
+    }
+
     pub fn last_fault_site(&self) -> Option<String> {
         self.lock().faults_fired.last().map(|f| f.site.clone())
     }
